@@ -6,8 +6,9 @@ ops
            bam_region_depths call, records parsed from stdout by an independent reader) for every
            read-filter configuration, and `find_snvs.main(argv)` for a subset.  Compared here with the
            model output carried in the task; mismatches are returned.
-  record : code -> spec.  The repository's BAMs (and seeded random ones) through find-snvs, and,
-           independently, through the SAM-text walker; returns trace events for TraceFindSnvs.tla.
+  record : code -> spec.  The repository's BAMs (and seeded random ones, and seeded random deep tables with near-tied
+           ALT frequencies and thresholds on observed values) through find-snvs, and, independently, through the
+           SAM-text walker; returns trace events for TraceFindSnvs.tla.
 """
 import contextlib
 import io
@@ -188,11 +189,22 @@ def replay(task):
             k = kind + "|" + "|".join("%s=%s" % kv for kv in sorted(key.items()))
             res["more"][k] = res["more"].get(k, 0) + 1
 
+    # deep instances: the state's table = a seed of n identical plain reads per entry (the model's BulkPile) + the
+    # single reads of hist.  The seed reads are realised once per chunk (one geometry per chunk).
+    seed_per = {k: [] for k in range(1, nS + 1)}
+    rngs = bamgen.seeded("c19seed", task["seed"], task["chunk"])
+    for ei, e in enumerate(task.get("bulk") or []):
+        for i in range(e["n"]):
+            ab = {"qname": "z%d_%d" % (ei, i), "rg": "g%d" % e["s"], "flags": ["reverse"] if rngs.random() < 0.5 else [], "mapq": 60,
+                  "cells": e["cells"], "overlap": True}
+            seed_per[e["s"]].append(bamgen.realise(ab, g, rngs, min_qual=30, max_qual=41))
+    n_seed = sum(len(v) for v in seed_per.values())
+
     for si, s in enumerate(task["states"]):
         rng = bamgen.seeded("c19", task["seed"], task["chunk"], si)
         hist = s["hist"]
         res["states"] += 1
-        per = {k: [] for k in range(1, nS + 1)}
+        per = {k: list(seed_per[k]) for k in range(1, nS + 1)}
         for i, a in enumerate(hist):
             deco = ["reverse"] if rng.random() < 0.5 else []
             ab = {"qname": "r%d" % i, "rg": "g%d" % a["s"], "flags": list(a["flags"]) + deco, "mapq": a["mapq"],
@@ -204,12 +216,14 @@ def replay(task):
             p = os.path.join(wd, "s%d.bam" % k)
             bamgen.write_bam(p, contigs, [{"ID": "g%d" % k, "SM": "S%d" % k}], per[k])
             paths.append(p)
-            sams["S%d" % k] = [x.sam() for x in per[k]]
+            sams["S%d" % k] = [x.sam() for x in per[k][len(seed_per[k]):]]  # (the seed reads are described by "bulk")
         classes = s["cls"]
         for c in classes:
             c["depth"] = [[list(c["depth"][k][p]) for p in range(2)] for k in range(nS)]
         cls_of = {j: ci for ci, c in enumerate(classes) for j in c["fc"]}
         ctx = {"hist": hist, "sam": sams, "sites": g.sites, "ref": g.ref}
+        if n_seed:
+            ctx["bulk"] = task["bulk"]
         flagged = any(a["flags"] or a["mapq"] < 30 for a in hist)
         # which (fc, th) pairs to run: every fc with one threshold set (depths), every threshold class of one fc per class
         jobs = []
@@ -306,7 +320,7 @@ def replay(task):
                         report("record-mismatch", {"site": "mchap find-snvs", "clause": "OnlyTargets"}, dict(ctx, argv=argv, impl=extra))
             except Exception as e:  # noqa
                 report("impl-error", {"site": "mchap find-snvs", "error": type(e).__name__}, dict(ctx, argv=argv, error=str(e)))
-        if len(hist) >= 2:
+        if len(hist) + n_seed >= 2:
             res["nontrivial"] += 1
     shutil.rmtree(wd, ignore_errors=True)
     return res
@@ -338,12 +352,23 @@ def _trace(tid, contig, start, stop, fasta, paths, fc, th, refseq):
             ev.append({"op": "norecord", "tid": tid, "p": pi + 1})
         else:
             ev.append({"op": "record", "tid": tid, "p": pi + 1, "ref": r["ref"], "alt": r["alt"], "masked": r["masked"], "AD": r["AD"],
-                       "sAD": r["sAD"], "ADMF": [int(round(float(x) * 1000000)) for x in r["ADMF"]]})
+                       "sAD": r["sAD"], "ADMF": [_micro(x) for x in r["ADMF"]]})
     return ev
 
 
-def rand_th(rng):
-    return {"imaf": rng.choice([[0, 1], [1, 10], [1, 4], [1, 2]]), "imad": rng.choice([0, 1, 2, 3]), "mind": rng.choice([1, 1, 2, 3]),
+def _micro(x):
+    """ADMF text -> integer millionths (-1: not a number, e.g. the 0/0 frequency of a position without reads)"""
+    try:
+        v = float(x)
+    except ValueError:
+        return -1
+    return int(round(v * 1000000)) if v == v and abs(v) < 2000 else -1
+
+
+def rand_th(rng, n_samples=3):
+    # --min-ind over its boundary values 0 (population thresholds only), 1, n_samples, n_samples + 1 (nothing can be listed)
+    return {"imaf": rng.choice([[0, 1], [1, 10], [1, 4], [1, 2]]), "imad": rng.choice([0, 1, 2, 3]),
+            "mind": rng.choice([1, 1, 2, n_samples, 0, n_samples + 1]),
             "maf": rng.choice([[0, 1], [0, 1], [1, 8], [1, 4]]), "mad": rng.choice([0, 0, 2, 10])}
 
 
@@ -363,7 +388,7 @@ def record_repo(task):
                 for k in range(task["cfgs"]):
                     fc = {"minq": 20, "kd": False, "kq": False, "ks": False} if k == 0 else {
                         "minq": rng.choice([0, 20, 30]), "kd": rng.random() < 0.5, "kq": rng.random() < 0.5, "ks": rng.random() < 0.5}
-                    th = {"imaf": [1, 10], "imad": 3, "mind": 1, "maf": [0, 1], "mad": 0} if k == 0 else rand_th(rng)
+                    th = {"imaf": [1, 10], "imad": 3, "mind": 1, "maf": [0, 1], "mad": 0} if k == 0 else rand_th(rng, len(paths))
                     tid += 1
                     out.append(_trace(tid, contig, start, stop, fasta, paths, fc, th, refseq))
     return out
@@ -393,11 +418,75 @@ def record_random(task):
             paths.append(p)
         for k in range(task.get("cfgs", 3)):
             fc = {"minq": rng.choice([0, 20, 30]), "kd": rng.random() < 0.5, "kq": rng.random() < 0.5, "ks": rng.random() < 0.5}
-            th = rand_th(rng)
+            th = rand_th(rng, nS)
             if th["maf"][0] > 0:
                 th["maf"] = [0, 1] if rng.random() < 0.5 else th["maf"]
             tid += 1
             out.append(_trace(tid, g.contig, g.start, g.stop, fasta, paths, fc, th, g.ref[g.start:g.stop]))
+    shutil.rmtree(wd, ignore_errors=True)
+    return out
+
+
+def _frac(a, b):
+    f = Fraction(a, b)
+    return [f.numerator, f.denominator]
+
+
+def record_deep(task):
+    """Seeded random DEEP tables: 2-3 samples of 30-60 plain reads covering 3 nearby sites; at every site two ALT alleles whose
+    counts differ by at most one between the samples (near-tied, mostly unequal mean sample frequencies), sometimes a third.
+    Thresholds at boundary values: --min-ind 0 / 1 / n / n+1, the others at 0, at a default, or exactly on a value observed
+    in the table (a sample's allele frequency / depth, a population depth).  Validated by TraceFindSnvs in exact arithmetic."""
+    out = []
+    wd = os.path.join(task["wd"], "deep-%s" % task["chunk"])
+    shutil.rmtree(wd, ignore_errors=True)
+    os.makedirs(wd)
+    tid = task["tid0"]
+    for it in range(task["n"]):
+        rng = bamgen.seeded("c19deep", task["seed"], task["chunk"], it)
+        refs = [rng.choice(BASES) for _ in range(3)]
+        g = bamgen.Geometry.build(rng, refs, spacing=(1, 3), margin=(3, 5))
+        contigs = {g.contig: len(g.ref)}
+        fasta = bamgen.write_fasta(os.path.join(wd, "ref%d.fa" % it), {g.contig: g.ref})
+        nS = rng.choice([2, 2, 3])
+        t0 = rng.randint(30, 58)
+        tots = [min(60, max(30, t0 + rng.choice([0, 1, 1, 2, 3, -1]))) for _ in range(nS)]
+        cols = [[None] * 3 for _ in range(nS)]      # cols[k][site] = list of bases, one per read
+        table = []                                  # (site, sample, base, depth, total)
+        for j in range(3):
+            alts = [b for b in BASES if b != refs[j]]
+            rng.shuffle(alts)
+            a = rng.randint(6, min(13, (min(tots) - 8) // 2 - 1))
+            third = rng.choice([0, 0, 1, 4])
+            for k in range(nS):
+                cnt = {alts[0]: a + rng.choice([0, 1]), alts[1]: a + rng.choice([0, 1]), alts[2]: min(third, 2 + k)}
+                cnt[refs[j]] = tots[k] - sum(cnt.values())
+                col = [b for b, n in cnt.items() for _ in range(n)]
+                rng.shuffle(col)
+                cols[k][j] = col
+                table.extend((j, k, b, n, tots[k]) for b, n in cnt.items() if n > 0)
+        paths = []
+        for k in range(nS):
+            alns = []
+            for i in range(tots[k]):
+                ab = {"qname": "d%d_%d" % (k, i), "rg": "g%d" % k, "flags": ["reverse"] if rng.random() < 0.5 else [], "mapq": 60,
+                      "cells": [cols[k][j][i] for j in range(3)], "overlap": True}
+                alns.append(bamgen.realise(ab, g, rng, min_qual=30, max_qual=41))
+            p = os.path.join(wd, "d%d_s%d.bam" % (it, k))
+            bamgen.write_bam(p, contigs, [{"ID": "g%d" % k, "SM": "D%d" % k}], alns)
+            paths.append(p)
+        start, stop = g.sites[0], g.sites[-1] + 1
+        for c in range(task.get("cfgs", 4)):
+            j, k, b, n, t = rng.choice(table)
+            popd = sum(x[3] for x in table if x[0] == j and x[2] == b)
+            th = {"imaf": rng.choice([[0, 1], [1, 10], _frac(n, t), _frac(n, t)]), "imad": rng.choice([0, 3, n, n]),
+                  "mind": rng.choice([0, 1, nS, nS + 1, 1, 0]),
+                  "maf": rng.choice([[0, 1], [0, 1], [1, 10], _frac(n, t)]), "mad": rng.choice([0, 0, popd, popd + 1])}
+            if c == 0:
+                th = {"imaf": [1, 10], "imad": 3, "mind": 1, "maf": [0, 1], "mad": 0}
+            fc = {"minq": 20, "kd": False, "kq": False, "ks": False}
+            tid += 1
+            out.append(_trace(tid, g.contig, start, stop, fasta, paths, fc, th, g.ref[start:stop]))
     shutil.rmtree(wd, ignore_errors=True)
     return out
 
@@ -410,4 +499,6 @@ def run(task):
         return record_repo(task)
     if op == "record_random":
         return record_random(task)
+    if op == "record_deep":
+        return record_deep(task)
     raise ValueError(op)
